@@ -54,6 +54,11 @@ func (db *DB) set(mode storage.ModeSet, rootAddr boson.Address, addrs ...boson.A
 	defer db.batchMu.Unlock()
 	if db.gcRunning {
 		db.dirtyAddresses = append(db.dirtyAddresses, addrs...)
+		// garbage collection works on whole files: pin, unpin and remove
+		// under a file context change that file's gc entry
+		if !rootAddr.IsZero() {
+			db.dirtyAddresses = append(db.dirtyAddresses, rootAddr)
+		}
 	}
 
 	batch := db.shed.NewBatch()
